@@ -18,6 +18,8 @@ Two case targets mixed by one strategy:
     that keeps the open finding F-C11-3 visible under a narrow signature.
 """
 import enum
+import inspect
+import json
 import os
 import shutil
 import tempfile
@@ -33,7 +35,7 @@ from vlib.harness import HarnessError, Outcome, hash32
 
 ID = "C11"
 TITLE = "Config and weight round-trips reproduce the same function"
-RULE = ("One Hypothesis strategy mixes three labelled targets. (A, ~93 %) an "
+RULE = ("One Hypothesis strategy mixes three labelled targets. (A, ~91 %) an "
         "object round-trip: a class name drawn from premade.get_custom_objects() "
         "plus CDF, the three PWL regularizers and UniformOutputInitializer (a "
         "registry name without a generator is a harness error), constructor "
@@ -41,16 +43,33 @@ RULE = ("One Hypothesis strategy mixes three labelled targets. (A, ~93 %) an "
         "input/output values, single-tuple trusts / dominances, per-dimension "
         "regularizer amounts, string / int / tuple spellings, regularizer "
         "tuples, lists and objects, initializer ids and objects, numpy "
-        "keypoints); the object is rebuilt from get_config() under the tfl "
-        "custom object scope and compared (config deep-equal; layers and premade "
-        "models: variables, outputs on generated inputs after the weights were "
-        "randomised and copied, per-variable constraint results, regularisation "
-        "losses, initial weights under the same seed, RTL structure; "
-        "constraints / initializers / regularizers: same tensor). (B, ~6 %) a "
+        "keypoints; a quarter of the layers with dtype='float64' - CDF and the "
+        "premade models excepted, see the GEN_FLOAT64_* switches); the object "
+        "is rebuilt under the tfl custom object scope twice, from get_config() "
+        "as is and from get_config() after the JSON encoding that "
+        "Model.to_json() / the HDF5 writer apply (tuples -> lists, numpy -> "
+        "plain, nested objects -> dicts; not for constraint objects, which "
+        "hold live tensors and are never written into a model config), and "
+        "compared: config deep-equal; every documented attribute (all named "
+        "__init__ parameters, name / dtype / trainable; vars() of the "
+        "tfl.configs classes) equal to the original's after mapping the "
+        "documented string spellings to ints; and, for the rebuild chosen by "
+        "the case (memory | json): layers and premade models: variables, "
+        "outputs on generated inputs after the weights were randomised and "
+        "copied, per-variable constraint results, regularisation losses, "
+        "initial weights under the same seed, RTL structure; constraints / "
+        "initializers / regularizers: same tensor.  About a quarter of the layer cases "
+        "(all layer classes but Aggregation) then put the generated layer into "
+        "a one-layer functional keras Model, save it as .keras, h5 or "
+        "SavedModel, reload it and compare outputs, variables, per-variable "
+        "constraint results on a random tensor and regularisation losses. "
+        "(B, ~8 %) a "
         "model from vlib.models.model_desc with <= 3 (thorough 6) operations "
         "from {sgd/adam step, hostile update, save_reload(.keras | h5 | "
         "SavedModel), from_config+set_weights}; after each restore: outputs on "
-        "40 probe rows, variable shapes, then a hostile optimizer update on the "
+        "40 probe rows, variable shapes, per-variable constraint results on a "
+        "random tensor and regularisation losses against the saved model, then "
+        "a hostile optimizer update on the "
         "restored model followed by the C03 monotonicity/bounds judge. (C, ~1 %) "
         "a functional model around a CDF layer saved and reloaded in one format. "
         "Non-trivial: object built with >= 1 optional argument and compared on "
@@ -65,9 +84,12 @@ TECHNIQUE = ("property-based testing (Hypothesis): round-trip / metamorphic "
 LEVEL_TEXT = ("Generated-input exploration of every registered tfl Keras object "
               "and config class: thousands of random valid constructor argument "
               "sets per run are serialised with get_config(), rebuilt with "
-              "from_config() under the tfl custom objects and compared with the "
-              "original (config, variables, outputs, constraint / regularizer / "
-              "initializer results); about a hundred short training histories "
+              "from_config() under the tfl custom objects - directly and after "
+              "a JSON encode / decode of the config - and compared with the "
+              "original (config, documented attributes, variables, outputs, "
+              "constraint / regularizer / initializer results); a few hundred "
+              "generated layers are saved and reloaded inside a one-layer model "
+              "in the three file formats; about a hundred short training histories "
               "per run save and reload real premade models in the .keras, HDF5 "
               "and SavedModel formats and check outputs, variables and that a "
               "hostile optimizer update is still projected.")
@@ -78,8 +100,22 @@ LEVEL_NOTE = ("Equality tolerance 1e-6 relative to max(1, max|value|). Layer "
               "is not part of the claim. Trusted: tf_keras serialisation, "
               "TensorFlow arithmetic. The single-tuple spelling is only "
               "generated for the Lattice layer (LatticeConstraints documents the "
-              "same meaning but rejects it; reported separately).")
-ASSUMPTIONS = ["hostile updates after a restore reuse props.c03 (same judge, "
+              "same meaning but rejects it; reported separately). float64 is "
+              "generated for the layers except CDF; not for premade models and "
+              "not numpy keypoints through .keras files, not float64 Lattice / "
+              "RTL layers with a list of regularizers (module switches "
+              "GEN_FLOAT64_CDF, GEN_FLOAT64_PREMADE, "
+              "GEN_FLOAT64_LATTICE_REGULARIZER_LISTS, "
+              "GEN_KERAS_FILE_NUMPY_KEYPOINTS: candidate defects).")
+ASSUMPTIONS = ["the JSON form of a config is json.dumps(config, default="
+               "tf_keras json_utils.get_json_type), the encoder of "
+               "Model.to_json() and of the HDF5 writer",
+               "attributes are compared original against rebuilt ('Attributes: "
+               "all __init__ arguments'); 'increasing'/'decreasing'/'none', "
+               "'valley'/'peak', 'convex'/'concave', 'positive'/'negative' "
+               "equal 1/-1/0, tuples equal lists",
+               "a float64 layer is fed float64 inputs",
+               "hostile updates after a restore reuse props.c03 (same judge, "
                "same signatures); F-C03-2 can therefore show up here too",
                "a violation of the C03 judge after a restore is re-checked on "
                "the never-saved model to tell lost constraints from C03 issues"]
@@ -109,8 +145,10 @@ def _seed(s):
 def norm(x):
   """Canonical plain structure of a config value (for deep comparison)."""
   import tensorflow as tf
-  if x is None or isinstance(x, (bool, str)):
+  if x is None or isinstance(x, bool):
     return x
+  if isinstance(x, str):
+    return str(x)          # numpy.str_ (random ensembles) is the same string
   if isinstance(x, enum.Enum):
     return {"__enum__": type(x).__name__ + "." + x.name}
   if isinstance(x, (np.bool_,)):
@@ -171,6 +209,115 @@ def copy_structure(x):
   if isinstance(x, tuple):
     return tuple(copy_structure(v) for v in x)
   return x
+
+
+def json_trip(cfg):
+  """The config as it comes back from a JSON file.
+
+  Model.to_json() and the HDF5 writer encode a model's (nested layer) configs
+  with json.dumps(config, default=json_utils.get_json_type): tuples come back
+  as lists, numpy scalars / arrays as floats / lists, enums as their value and
+  nested objects as {"class_name", "config"} dicts.  Raises TypeError when the
+  config holds something that encoder cannot write.
+  """
+  from tf_keras.src.saving.legacy.saved_model import json_utils
+  return json.loads(json.dumps(cfg, default=json_utils.get_json_type))
+
+
+# documented equivalent spellings of the same constructor argument
+VOCAB = {"increasing": 1, "decreasing": -1, "none": 0, "valley": 1, "peak": -1,
+         "convex": 1, "concave": -1, "positive": 1, "negative": -1}
+_KEEP_KEYS = ("name", "class_name", "__object__", "registered_name", "module",
+              "feature_name", "is_missing_name", "vocabulary_list")
+
+
+def canon(x, key=None):
+  """Maps the documented string spellings to their integer form (values only;
+  names stay as they are)."""
+  if isinstance(x, dict):
+    return {k: (v if k in _KEEP_KEYS else canon(v, k)) for k, v in x.items()}
+  if isinstance(x, list):
+    return [canon(v, key) for v in x]
+  if isinstance(x, str) and x in VOCAB:
+    return VOCAB[x]
+  return x
+
+
+def _is_plain_config(x):
+  """tfl.configs classes: plain attribute holders (vars() is their state)."""
+  return (type(x).__module__.endswith("tensorflow_lattice.python.configs") and
+          hasattr(x, "__dict__") and not isinstance(x, type))
+
+
+def attr_value(x):
+  """norm() that looks into tfl.configs objects through vars(), not through
+  their get_config()."""
+  if _is_plain_config(x):
+    return {"__vars__": type(x).__name__,
+            "vars": {str(k): attr_value(v) for k, v in vars(x).items()}}
+  if isinstance(x, dict):
+    return {str(k): attr_value(v) for k, v in x.items()}
+  if isinstance(x, (list, tuple)):
+    return [attr_value(v) for v in x]
+  return norm(x)
+
+
+def attr_view(obj):
+  """The documented attributes of an object ("Attributes: all __init__
+  arguments"): for a tfl.configs class all of vars(); otherwise every named
+  parameter of __init__ that is present as an attribute, plus name / dtype /
+  trainable of Keras layers and models."""
+  if _is_plain_config(obj):
+    return canon(attr_value(obj))
+  names = []
+  try:
+    for pname, par in inspect.signature(type(obj).__init__).parameters.items():
+      if pname != "self" and par.kind not in (par.VAR_KEYWORD,
+                                              par.VAR_POSITIONAL):
+        names.append(pname)
+  except (TypeError, ValueError):
+    pass
+  if hasattr(obj, "trainable_weights"):
+    names += ["name", "dtype", "trainable"]
+  view = {}
+  for n in names:
+    if n in view:
+      continue
+    try:
+      view[n] = canon(attr_value(getattr(obj, n)), n)
+    except AttributeError:
+      continue
+  return view
+
+
+def compare_attrs(obj, rebuilt, name, how, out, sig):
+  """Every documented attribute of the rebuilt object equals the original's
+  (after mapping equivalent spellings): a key that get_config() drops or
+  hard-codes, or that from_config() ignores, shows here even when no
+  behavioural probe depends on it."""
+  va, vb = attr_view(obj), attr_view(rebuilt)
+  out.checks += 1
+  d = deep_diff(va, vb)
+  if d:
+    key = [p for p in d.split("/") if p][:2]
+    key = key[-1] if (key and key[0] == "vars" and len(key) > 1) else (
+        key[0] if key else "")
+    out.violate("attribute %s of the %s rebuilt %s differs from the "
+                "original's (%s)" % (d, name, how, _short_at(va, vb, d)),
+                kind="attribute", key=key.split("(")[0], **sig)
+    return False
+  return True
+
+
+def _short_at(a, b, path):
+  for p in [q for q in path.split("/") if q]:
+    p = p.split("(")[0]
+    try:
+      a = a[int(p)] if isinstance(a, list) else a[p]
+      b = b[int(p)] if isinstance(b, list) else b[p]
+    except (KeyError, IndexError, ValueError, TypeError):
+      break
+  return ("%r vs %r" % (a, b))[:160]
 
 
 def flat(y):
@@ -363,7 +510,8 @@ def compare_layers(a, b, inputs, case, out, sig, after_build=None,
   for i, (p, q) in enumerate(zip(va, vb)):
     if p.constraint is None:
       continue
-    t = tf.constant(rand_like(rs, p.shape, 2.0))
+    t = tf.constant(rand_like(rs, p.shape, 2.0).astype(
+        p.dtype.as_numpy_dtype))
     ra, rb = p.constraint(t), q.constraint(t)
     out.checks += 1
     ok, m = close(ra, rb)
@@ -418,6 +566,32 @@ class Entry(object):
 
 
 REG = {}
+
+# Non-default Keras base-class arguments for the layer / premade model under
+# construction (set by run_object around entry.make and build_premade).
+_CTX = {"dtype": None}
+# dtype="float64" layers and premade models (documented: **kwargs "passed to
+# keras.layers.Layer", premade `dtype` argument).
+GEN_FLOAT64_LAYERS = True
+# candidate defect C11-1 (see the widening report): CDF(dtype="float64") with
+# the default fixed input scaling multiplies a float32 constant with float64
+# tensors and cannot be called.
+GEN_FLOAT64_CDF = False
+# candidate defect C11-5: a float64 Lattice (also inside RTL) with a LIST of
+# kernel regularizers cannot be built when one item evaluates to the Python
+# constant 0.0 (zero amounts, torsion of a rank-1 lattice): tf.add_n of float32
+# and float64.  While False, Lattice / RTL cases with a regularizer list of two
+# or more items stay float32.
+GEN_FLOAT64_LATTICE_REGULARIZER_LISTS = False
+# candidate defects C11-2 / C11-3: CalibratedLinear(dtype=tf.float64) cannot
+# be constructed (Concatenate without dtype casts to float32 in front of the
+# float64 Linear layer) and every premade model drops dtype in get_config().
+GEN_FLOAT64_PREMADE = False
+
+
+def _base_kw():
+  return {} if _CTX["dtype"] is None else {"dtype": _CTX["dtype"]}
+
 
 
 # ---------------------------------------------------------------- Lattice
@@ -606,6 +780,7 @@ def make_lattice_layer(spec):
   if spec["reg"] is not None:
     kw["kernel_regularizer"] = make_lattice_regs(spec["reg"], cfg["sizes"])
     n_opt += 1
+  kw.update(_base_kw())
   return tfl.layers.Lattice(**kw), n_opt + int(spec["units"] > 1)
 
 
@@ -855,6 +1030,7 @@ def make_pwl_layer(spec):
     kw["split_outputs"] = spec["split"]
   if spec["name"] is not None:
     kw["name"] = spec["name"]
+  kw.update(_base_kw())
   return tfl.layers.PWLCalibration(**kw), n_opt
 
 
@@ -1069,6 +1245,7 @@ def make_linear_layer(spec):
     n_opt += 1
   if spec["name"] is not None:
     kw["name"] = spec["name"]
+  kw.update(_base_kw())
   return tfl.layers.Linear(num_input_dims=cfg["dims"], units=cfg["units"],
                            use_bias=cfg["use_bias"], **kw), n_opt
 
@@ -1166,6 +1343,7 @@ def make_categorical_layer(spec):
     kw["split_outputs"] = spec["split"]
   if spec["name"] is not None:
     kw["name"] = spec["name"]
+  kw.update(_base_kw())
   return tfl.layers.CategoricalCalibration(**kw), n_opt
 
 
@@ -1274,6 +1452,7 @@ def make_kfl_layer(spec):
     n_opt += 1
   if spec["name"] is not None:
     kw["name"] = spec["name"]
+  kw.update(_base_kw())
   return tfl.layers.KroneckerFactoredLattice(**kw), n_opt
 
 
@@ -1428,6 +1607,7 @@ def make_cdf(spec):
   if spec["init"] is not None:
     kw["kernel_initializer"] = make_keras_init(spec["init"])
     n_opt += 1
+  kw.update(_base_kw())
   return tfl.layers.CDF(**kw), n_opt
 
 
@@ -1531,6 +1711,7 @@ def make_rtl(spec):
     else:
       kw["kernel_regularizer"] = [conv(r) for r in reg["list"]]
     n_opt += 1
+  kw.update(_base_kw())
   return tfl.layers.RTL(**kw), n_opt
 
 
@@ -1613,14 +1794,17 @@ def make_parallel(spec):
       layers.append(make_categorical_layer(s["spec"])[0])
     elif s["kind"] == "linear":
       layers.append(tfl.layers.Linear(num_input_dims=1,
-                                      monotonicities=[s["mono"]]))
+                                      monotonicities=[s["mono"]],
+                                      **_base_kw()))
     else:
-      layers.append(tfl.layers.CDF(num_keypoints=s["nk"], units=1))
+      layers.append(tfl.layers.CDF(num_keypoints=s["nk"], units=1,
+                                   **_base_kw()))
   kw = {}
   if spec["single_output"] is not None:
     kw["single_output"] = spec["single_output"]
   if spec["name"] is not None:
     kw["name"] = spec["name"]
+  kw.update(_base_kw())
   if spec["ctor"] == "list":
     comb = tfl.layers.ParallelCombination(layers, **kw)
   else:
@@ -1771,6 +1955,11 @@ def make_dominance_config(spec):
   return tfl.configs.DominanceConfig(**spec), len(spec) - 1
 
 
+STANDALONE_NUMERIC_FIELDS = ["unimodality", "pwl_calibration_always_monotonic",
+                             "pwl_calibration_clip_min",
+                             "pwl_calibration_clip_max", "is_missing_name"]
+
+
 @st.composite
 def feature_config_spec(draw, tier=None):
   spec = {"name": draw(st.sampled_from(["f0", "age", "thal"]))}
@@ -1809,6 +1998,25 @@ def feature_config_spec(draw, tier=None):
     opt("pwl_calibration_clip_max", st.sampled_from([1.0, 100.0]))
     opt("pwl_calibration_clamp_min", st.booleans())
     opt("pwl_calibration_clamp_max", st.booleans())
+  # fields that no premade model of this module exercises (only this
+  # stand-alone round trip sees them): one of them is always non-default
+  forced = draw(_spread(["is_missing_name", "vocabulary_list"] if categorical
+                        else STANDALONE_NUMERIC_FIELDS, "fc-field"))
+  if forced == "is_missing_name":
+    spec[forced] = "f0_missing"
+  elif forced == "vocabulary_list":
+    spec[forced] = ["v%d" % i for i in range(spec["num_buckets"])]
+    if isinstance(spec.get("monotonicity"), list):
+      spec["monotonicity"] = [["v0", "v1"]]
+  elif forced == "unimodality":
+    spec[forced] = draw(st.sampled_from(["valley", "peak", 1, -1]))
+    spec.pop("monotonicity", None)
+  elif forced == "pwl_calibration_always_monotonic":
+    spec[forced] = True
+  elif forced == "pwl_calibration_clip_min":
+    spec[forced] = draw(st.sampled_from([-1.0, 0.0]))
+  elif forced == "pwl_calibration_clip_max":
+    spec[forced] = draw(st.sampled_from([1.0, 100.0]))
   opt("reflects_trust_in", st.lists(trust_config_spec(), min_size=0,
                                     max_size=2))
   opt("dominates", st.lists(dominance_config_spec(), min_size=0, max_size=2))
@@ -1843,7 +2051,7 @@ REG["DominanceConfig"] = Entry("DominanceConfig", "config",
                                dominance_config_spec, make_dominance_config,
                                0.4)
 REG["FeatureConfig"] = Entry("FeatureConfig", "config", feature_config_spec,
-                             make_feature_config, 2.0)
+                             make_feature_config, 3.0)
 
 
 # ---------------------------------------------------------------- models
@@ -1901,6 +2109,7 @@ def premade_cls(cfg):
 def build_premade(cfg, seed, name=None):
   _seed(seed)
   kw = {} if name is None else {"name": name}
+  kw.update(_base_kw())
   return premade_cls(cfg)(cfg, **kw)
 
 
@@ -2070,6 +2279,15 @@ def spec_labels(name, spec):
       labs.append("rtl:%s" % (spec["param"] or "all_vertices"))
       labs.append("rtl:seed-%s" % ("default" if spec["seed"] is None
                                    else "given"))
+    if name == "FeatureConfig":
+      defaults = {"unimodality": ("none", 0), "is_missing_name": (None,),
+                  "pwl_calibration_always_monotonic": (False,),
+                  "pwl_calibration_clip_min": (None,),
+                  "pwl_calibration_clip_max": (None,),
+                  "vocabulary_list": (None,)}
+      for key in sorted(defaults):
+        if key in spec and spec[key] not in defaults[key]:
+          labs.append("feature-config-field:" + key)
     if "desc" in spec:
       labs.append("model:" + spec["desc"]["kind"])
       labs.append("param:" + spec["desc"]["parameterization"])
@@ -2120,6 +2338,75 @@ def check_registry():
   return registry
 
 
+def _rebuild(cls, cfg, cfg_in, cfg_norm, build_seed, how, name, spec, obj,
+             out, sig):
+  """cls.from_config(cfg_in) + type and config equality; None on violation."""
+  tf, tfl, keras = _tf()
+  sig = dict(sig) if how == "memory" else dict(sig, via=how)
+  # objects that create their weights while being constructed (models) are
+  # rebuilt under the seed the original was constructed with
+  _seed(build_seed)
+  try:
+    with _scope():
+      rebuilt = cls.from_config(copy_structure(cfg_in))
+  except Exception as e:  # pylint: disable=broad-except
+    out.checks += 1
+    if _mentions_cdf(cfg_norm):
+      try:
+        with _scope():
+          with keras.utils.custom_object_scope({"CDF": tfl.layers.CDF}):
+            cls.from_config(copy_structure(cfg_in))
+        out.violate("%s containing a CDF layer cannot be rebuilt from its "
+                    "config with get_custom_objects() (%s: %s); works once CDF "
+                    "is added to the scope" % (name, type(e).__name__,
+                                               str(e)[:120]),
+                    kind="cdf-not-reloadable", format="from_config")
+        return None
+      except Exception:  # pylint: disable=broad-except
+        pass
+    if name == "Aggregation" and spec["inner"] != "premade":
+      try:
+        with _scope():
+          with keras.utils.custom_object_scope(
+              {"Functional": keras.Model, "Sequential": keras.Sequential}):
+            cls.from_config(copy_structure(cfg_in))
+        out.violate("Aggregation around a plain keras %s model cannot be "
+                    "rebuilt from its config (%s: %s); works once the keras "
+                    "model class is added to the custom objects" % (
+                        type(obj.model).__name__, type(e).__name__,
+                        str(e)[:100]),
+                    kind="aggregation-plain-model-not-deserialisable",
+                    inner=type(obj.model).__name__)
+        return None
+      except Exception:  # pylint: disable=broad-except
+        pass
+    out.violate("%s.from_config(%s) failed: %s: %s" % (
+        name, "get_config()" if how == "memory" else
+        "JSON-encoded get_config()", type(e).__name__, str(e)[:300]),
+                kind="from_config", exc=type(e).__name__, **sig)
+    return None
+  out.checks += 2
+  if type(rebuilt) is not cls:
+    out.violate("from_config returned a %s" % type(rebuilt).__name__,
+                kind="from_config-type", **sig)
+    return None
+  try:
+    cfg2 = rebuilt.get_config()
+  except Exception as e:  # pylint: disable=broad-except
+    out.violate("get_config() of the rebuilt %s fails: %s: %s" % (
+        name, type(e).__name__, str(e)[:200]), kind="rebuilt-get_config",
+                exc=type(e).__name__, **sig)
+    return None
+  d = deep_diff(cfg_norm, norm(cfg2))
+  if d:
+    out.violate("config of %s rebuilt %s differs at %s" % (
+        name, "from its config" if how == "memory" else
+        "from its JSON-encoded config", d),
+                kind="config", key=d.split("/")[1].split("(")[0], **sig)
+    return None
+  return rebuilt
+
+
 def run_object(case, out):
   tf, tfl, keras = _tf()
   registry = check_registry()
@@ -2130,87 +2417,142 @@ def run_object(case, out):
   rs = np.random.RandomState(case["aux"])
   sig = {"cls": name}
   _seed(case["seed"])
+  dtype = case.get("dtype")
+  if dtype is not None and not (
+      GEN_FLOAT64_PREMADE if entry.kind in ("model", "modelcfg") else
+      GEN_FLOAT64_LAYERS):
+    dtype = None
+  if dtype is not None and not GEN_FLOAT64_CDF and (
+      name == "CDF" or (name == "ParallelCombination" and any(
+          sub["kind"] == "cdf" for sub in spec["subs"]))):
+    dtype = None
+  if (dtype is not None and not GEN_FLOAT64_LATTICE_REGULARIZER_LISTS and
+      name in ("Lattice", "RTL") and isinstance(spec.get("reg"), dict) and
+      len(spec["reg"].get("list") or []) >= 2):
+    dtype = None
+  _CTX["dtype"] = dtype
+  try:
+    _run_object(case, out, entry, registry, name, spec, rs, sig)
+  finally:
+    _CTX["dtype"] = None
+
+
+# candidate defect C11-4 (see the widening report): a PWLCalibration layer
+# constructed with a numpy array of input_keypoints (the documented
+# np.linspace usage) keeps the array in get_config(); a model containing it
+# saves to a .keras file but cannot be loaded back (from_config receives the
+# {"class_name": "__numpy__"} dict).  While False, such layers go through the
+# HDF5 format instead of .keras in the wrapped-model step.
+GEN_KERAS_FILE_NUMPY_KEYPOINTS = False
+
+
+def _numpy_keypoints(name, spec):
+  if name == "PWLCalibration":
+    return spec.get("kp_spell") == "ndarray"
+  if name == "ParallelCombination":
+    return any(sub["kind"] == "pwl" and sub["spec"].get("kp_spell") == "ndarray"
+               for sub in spec["subs"])
+  return False
+
+
+def _cast_inputs(inputs):
+  """A float64 layer is fed float64 inputs (Linear's input_spec requires it)."""
+  import tensorflow as tf
+  if _CTX["dtype"] is None:
+    return inputs
+  return tf.nest.map_structure(
+      lambda a: a.astype(_CTX["dtype"]) if (isinstance(a, np.ndarray) and
+                                            a.dtype == np.float32) else a,
+      inputs)
+
+
+def _run_object(case, out, entry, registry, name, spec, rs, sig):
+  tf, tfl, keras = _tf()
+  if _CTX["dtype"] is not None:
+    out.label("dtype:" + _CTX["dtype"])
   obj, n_opt = entry.make(spec)
   cls = type(obj)
   if name in registry and registry[name] is not cls:
     raise HarnessError("generator for %s built a %s" % (name, cls))
   out.nontrivial = n_opt >= 1
   out.info["optional_args"] = n_opt
+  if (name in ("CalibratedLatticeEnsembleConfig", "CalibratedLatticeEnsemble")
+      and spec["desc"]["kind"] == "ensemble_random"):
+    # a random ensemble is a function of random_seed alone: materialising it
+    # again (with the global numpy stream somewhere else) gives the same lists
+    np.random.seed((case["aux"] + 1) % (2**32 - 1))
+    again = build_model_config(spec)
+    first = obj if name.endswith("Config") else obj.model_config
+    out.checks += 1
+    out.label("random-ensemble:materialised-twice")
+    if deep_diff(norm(first.lattices), norm(again.lattices)):
+      out.violate("set_random_lattice_ensemble gives different lattices for "
+                  "the same random_seed: %s vs %s" % (
+                      norm(first.lattices), norm(again.lattices)),
+                  kind="random-ensemble-structure", **sig)
+      return
   cfg = obj.get_config()
   cfg_norm = norm(cfg)
-  # objects that create their weights while being constructed (models) are
-  # rebuilt under the seed the original was constructed with
-  _seed(spec["desc"]["seed"] if isinstance(spec, dict) and "desc" in spec
-        else case["seed"])
-  try:
-    with _scope():
-      rebuilt = cls.from_config(copy_structure(cfg))
-  except Exception as e:  # pylint: disable=broad-except
-    out.checks += 1
-    if _mentions_cdf(cfg_norm):
+  kind = entry.kind
+  via = case.get("via", "memory")
+  heavy = kind in ("model", "modelcfg")
+  build_seed = (spec["desc"]["seed"] if isinstance(spec, dict) and "desc" in spec
+                else case["seed"])
+  rebuilt = None
+  # two rebuilds: from the in-memory config and from the config as it comes
+  # back from a JSON file (what Model.to_json / the HDF5 writer store); both
+  # are compared on config and attributes, the one named by case["via"] also
+  # functionally (premade models are only rebuilt that one way: cost).
+  if kind == "constraint":
+    # constraint objects hold live tensors / variables / enums and are never
+    # written into a model's config (the layers re-create them in build())
+    via = "memory"
+  out.label("roundtrip:" + via)
+  for how in ("memory", "json"):
+    if (heavy and how != via) or (kind == "constraint" and how == "json"):
+      continue
+    if how == "json":
+      out.checks += 1
       try:
-        with _scope():
-          with keras.utils.custom_object_scope({"CDF": tfl.layers.CDF}):
-            cls.from_config(copy_structure(cfg))
-        out.violate("%s containing a CDF layer cannot be rebuilt from its "
-                    "config with get_custom_objects() (%s: %s); works once CDF "
-                    "is added to the scope" % (name, type(e).__name__,
-                                               str(e)[:120]),
-                    kind="cdf-not-reloadable", format="from_config")
+        cfg_in = json_trip(cfg)
+      except (TypeError, ValueError) as e:
+        out.violate("get_config() of %s cannot be written to JSON as "
+                    "Model.to_json() / model.save() do: %s" % (
+                        name, str(e)[:200]), kind="config-not-json", **sig)
         return
-      except Exception:  # pylint: disable=broad-except
-        pass
-    if name == "Aggregation" and spec["inner"] != "premade":
-      try:
-        with _scope():
-          with keras.utils.custom_object_scope(
-              {"Functional": keras.Model, "Sequential": keras.Sequential}):
-            cls.from_config(copy_structure(cfg))
-        out.violate("Aggregation around a plain keras %s model cannot be "
-                    "rebuilt from its config (%s: %s); works once the keras "
-                    "model class is added to the custom objects" % (
-                        type(obj.model).__name__, type(e).__name__,
-                        str(e)[:100]),
-                    kind="aggregation-plain-model-not-deserialisable",
-                    inner=type(obj.model).__name__)
-        return
-      except Exception:  # pylint: disable=broad-except
-        pass
-    out.violate("%s.from_config(get_config()) failed: %s: %s" % (
-        name, type(e).__name__, str(e)[:300]), kind="from_config",
-                exc=type(e).__name__, **sig)
-    return
-  out.checks += 2
-  if type(rebuilt) is not cls:
-    out.violate("from_config returned a %s" % type(rebuilt).__name__,
-                kind="from_config-type", **sig)
-    return
-  try:
-    cfg2 = rebuilt.get_config()
-  except Exception as e:  # pylint: disable=broad-except
-    out.violate("get_config() of the rebuilt %s fails: %s: %s" % (
-        name, type(e).__name__, str(e)[:200]), kind="rebuilt-get_config",
-                exc=type(e).__name__, **sig)
-    return
-  d = deep_diff(cfg_norm, norm(cfg2))
-  if d:
-    out.violate("config of rebuilt %s differs at %s" % (name, d),
-                kind="config", key=d.split("/")[1].split("(")[0], **sig)
-    return
+    else:
+      cfg_in = copy_structure(cfg)
+    one = _rebuild(cls, cfg, cfg_in, cfg_norm, build_seed, how, name, spec, obj,
+                   out, sig)
+    if one is None:
+      return
+    if not compare_attrs(obj, one, name, "from its config" if how == "memory"
+                         else "from its JSON-encoded config", out,
+                         dict(sig, via=how)):
+      return
+    if how == via:
+      rebuilt = one
   kind = entry.kind
   if kind == "config":
     return
   if kind in ("layer", "model"):
     ab = entry.extra.get("after_build")
-    compare_layers(obj, rebuilt, entry.extra["inputs"](spec, rs), case, out,
-                   sig, after_build=ab(out, sig) if ab else None,
-                   project=kind == "model" or entry.extra.get("project"))
+    inputs = _cast_inputs(entry.extra["inputs"](spec, rs))
+    same = compare_layers(obj, rebuilt, inputs, case, out,
+                          sig, after_build=ab(out, sig) if ab else None,
+                          project=kind == "model" or entry.extra.get("project"))
+    if same and kind == "layer" and case.get("wrap"):
+      fmt = case["wrap"]
+      if (fmt == "keras" and not GEN_KERAS_FILE_NUMPY_KEYPOINTS and
+          _numpy_keypoints(name, spec)):
+        fmt = "h5"
+      run_wrapped(obj, inputs, fmt, name, out)
   elif kind == "modelcfg":
     seed = spec["desc"]["seed"]
     ma = build_premade(obj, seed, spec["name"])
     mb = build_premade(rebuilt, seed, spec["name"])
-    compare_layers(ma, mb, entry.extra["inputs"](spec, rs), case, out, sig,
-                   project=True)
+    compare_layers(ma, mb, _cast_inputs(entry.extra["inputs"](spec, rs)), case,
+                   out, sig, project=True)
   elif kind in ("constraint", "regularizer"):
     t = entry.extra["tensor"](spec, rs)
     what = "constraint-result" if kind == "constraint" else "regularizer-value"
@@ -2263,6 +2605,93 @@ def _save_load(model, fmt, tmp, extra_objects=None):
       return None, ("load", e)
 
 
+def compare_restored(old, new, seed, what, out, sig, prefix="restore"):
+  """Constraint results on one random tensor per constrained variable and the
+  regularisation losses of a restored model against the model that was saved
+  (same weights): a restore that silently drops or changes trust / dominance /
+  clamp / convexity / norm constraints or a regularizer shows here."""
+  import tensorflow as tf
+  rs = np.random.RandomState(int(seed) % (2**31 - 1))
+  va, vb = list(old.weights), list(new.weights)
+  for i, (p, q) in enumerate(zip(va, vb)):
+    ca = getattr(p, "constraint", None)
+    cb = getattr(q, "constraint", None)
+    out.checks += 1
+    if (ca is None) != (cb is None):
+      out.violate("variable %d (%s) %s its constraint in the %s" % (
+          i, p.name, "lost" if cb is None else "gained", what),
+                  kind=prefix + "-constraint-presence", **sig)
+      return False
+    if ca is None:
+      continue
+    t = tf.constant(rand_like(rs, p.shape, 2.0).astype(p.dtype.as_numpy_dtype))
+    ok, m = close(ca(t), cb(t))
+    if not ok:
+      out.violate("the constraint of variable %d (%s) maps the same tensor "
+                  "differently after the %s (%s)" % (i, p.name, what, m),
+                  kind=prefix + "-constraint-result", **sig)
+      return False
+  la = [np.asarray(l, np.float64) for l in old.losses]
+  lb = [np.asarray(l, np.float64) for l in new.losses]
+  out.checks += 1
+  ok, m = close(np.sum(la) if la else 0.0, np.sum(lb) if lb else 0.0)
+  if not ok:
+    out.violate("regularisation losses changed by the %s: %s vs %s" % (
+        what, [float(np.sum(l)) for l in la], [float(np.sum(l)) for l in lb]),
+                kind=prefix + "-losses", **sig)
+    return False
+  return True
+
+
+def run_wrapped(layer, inputs, fmt, name, out):
+  """The generated layer as the only layer of a functional keras Model, saved
+  to a file in one format and reloaded: outputs, variables, per-variable
+  constraint results and regularisation losses are preserved."""
+  import tensorflow as tf
+  _, _, keras = _tf()
+  out.label("wrapped-model:" + fmt, "wrapped-model-cls:" + name)
+  sig = {"cls": name, "format": fmt, "wrapped": True}
+  x0 = inputs[0]
+  flat_in = [keras.Input(shape=a.shape[1:], dtype=a.dtype)
+             for a in tf.nest.flatten(x0)]
+  y = layer(tf.nest.pack_sequence_as(x0, flat_in))
+  model = keras.Model(inputs=flat_in, outputs=y)
+  feeds = [[np.asarray(a) for a in tf.nest.flatten(x)] for x in inputs]
+  before = [flat(model(f)) for f in feeds]
+  tmp = tempfile.mkdtemp(prefix="verif-c11-")
+  try:
+    m2, err = _save_load(model, fmt, tmp)
+    out.checks += 1
+    if err is not None:
+      out.violate("%s of a one-layer model around a valid %s in format %s "
+                  "failed: %s: %s" % (err[0], name, fmt, type(err[1]).__name__,
+                                      str(err[1])[:300]),
+                  kind="wrapped-restore-failed", stage=err[0],
+                  exc=type(err[1]).__name__, **sig)
+      return
+    sa = [(tuple(w.shape), w.dtype.name) for w in model.weights]
+    sb = [(tuple(w.shape), w.dtype.name) for w in m2.weights]
+    out.checks += 1
+    if sa != sb:
+      out.violate("one-layer model around %s restored from %s has different "
+                  "variables: %s vs %s" % (name, fmt, sb, sa),
+                  kind="wrapped-restore-variables", **sig)
+      return
+    for f, b in zip(feeds, before):
+      out.checks += 1
+      ok, m = all_close(b, flat(m2(f)))
+      if not ok:
+        out.violate("outputs of a one-layer model around %s changed by the %s "
+                    "restore (%s)" % (name, fmt, m),
+                    kind="wrapped-restore-outputs", **sig)
+        return
+    compare_restored(model, m2, len(sa) + 17, "%s restore of a one-layer "
+                     "model around %s" % (fmt, name), out, sig,
+                     prefix="wrapped-restore")
+  finally:
+    shutil.rmtree(tmp, ignore_errors=True)
+
+
 def _restore(sim, op, out, tmp):
   """One save_reload / from_config op. Returns False to end the history."""
   desc = sim.desc
@@ -2310,6 +2739,10 @@ def _restore(sim, op, out, tmp):
       out.violate("outputs on the %s changed by the restore (%s)" % (what, m),
                   kind="restore-outputs", **sig)
       return False
+  # same constraints and regularizers attached (file formats: the restored
+  # model went through the layers' get_config / from_config)
+  if not compare_restored(old, m2, desc["seed"], "%s restore" % fmt, out, sig):
+    return False
   # constraints still attached: hostile update through the optimizer + judge
   w0 = m2.get_weights()
   tmp_out = Outcome()
@@ -2487,12 +2920,34 @@ def _spread(items, tag):
       lambda u: items[hash32(tag, *u) % len(items)])
 
 
+_WRAPS = [None] * 7 + list(FORMATS)
+_DTYPES = [None, None, None, "float64"]
+
+
+def _expand_mode(case):
+  """via / wrap / dtype from one drawn number (one draw keeps the cases small
+  for Hypothesis): rebuild route, one-layer-model file format (layers only),
+  dtype (layers and premade models)."""
+  n, r = case["cls"], case.pop("mode")
+  kind = REG[n].kind
+  case["via"] = ["memory", "json"][r % 2]
+  case["wrap"] = (_WRAPS[(r // 2) % len(_WRAPS)]
+                  if kind == "layer" and n != "Aggregation" else None)
+  case["dtype"] = (_DTYPES[(r // (2 * len(_WRAPS))) % len(_DTYPES)]
+                   if kind in ("layer", "model", "modelcfg") and
+                   n not in ("Aggregation", "AggregateFunction",
+                             "AggregateFunctionConfig") else None)
+  return case
+
+
 def object_case(tier, name=None):
   pick = st.just(name) if name else _spread(_weighted_names(), "cls")
   return pick.flatmap(lambda n: st.fixed_dictionaries({
       "target": st.just("object"), "cls": st.just(n),
       "args": REG[n].strat(tier), "seed": st.integers(0, 10**6),
-      "aux": S.seeds}))
+      "aux": S.seeds,
+      "mode": _spread(range(2 * len(_WRAPS) * len(_DTYPES)), "mode")}).map(
+          _expand_mode))
 
 
 op_restore = st.fixed_dictionaries({
@@ -2529,5 +2984,5 @@ def cdf_model_case(draw, tier):
 
 def strategy(tier):
   return _spread(range(1000), "target").flatmap(
-      lambda r: history_case(tier) if r < 50 else
-      cdf_model_case(tier) if r < 60 else object_case(tier))
+      lambda r: history_case(tier) if r < 80 else
+      cdf_model_case(tier) if r < 90 else object_case(tier))
